@@ -11,8 +11,8 @@ META = dict(
     technique='TLA+ critical-section model checked exhaustively by TLC (with the pre-repair variant as witness); TLC trace validation against the abstract readers-writer lock of executions recorded from the real locks',
     design='3/C06')
 
-MODES_Q = [('rw', 150), ('qrw', 150), ('rwrace', 80)]
-MODES_T = [('rw', 2500), ('qrw', 2500), ('rwrace', 1500)]
+MODES_Q = [('rw', 150), ('qrw', 150), ('rwrace', 80), ('crw', 1200), ('cqrw', 1200)]
+MODES_T = [('rw', 2500), ('qrw', 2500), ('rwrace', 1500), ('crw', 30000), ('cqrw', 30000)]
 MC = [('MC_RWLock', f'MC_RWLock_{c}.cfg', 900) for c in ('rw1', 'rw2', 'qrw1', 'qrw2')]
 
 
